@@ -25,6 +25,12 @@ Definition in_size (lo hi n : Z) : bool := (lo <=? n) && (n <=? hi).            
 Definition size_sub (lo hi lo' hi' : Z) : bool := (lo <=? lo') && (hi' <=? hi). (* IntegerType.IsAssignable *)
 Definition zlen {A} (l : list A) : Z := Z.of_nat (length l).
 
+(* Float bounds and values are order keys (types.VerifFloatKey: the IEEE image, negated below zero): every
+   non-NaN float has a key in [-InfF, InfF], the infinities have the keys -InfF and InfF *)
+Definition InfF : Z := 9218868437227405312.          (* order key of math.Inf(1), 0x7FF0000000000000 *)
+(* floattype.go:210 IsUnbounded: min is -Inf and max is +Inf (on order keys: min <= key(-Inf), key(+Inf) <= max) *)
+Definition float_unbounded (lo hi : Z) : bool := (lo <=? - InfF) && (InfF <=? hi).
+
 Definition is_any (t : ty) : bool := match t with TAny => true | _ => false end.
 Definition is_undef (t : ty) : bool := match t with TUndef => true | _ => false end.
 Definition mem_str (s : str) (l : list str) : bool := existsb (str_eqb s) l.
@@ -62,7 +68,7 @@ Section Lattice.
     | FNumeric, (TInteger _ _ | TFloat _ _ | TNumeric) => true   (* Numeric: the singleton, a == b *)
     | FBoolean, TBoolean _ => true
     | FInteger, TInteger _ _ => true
-    | FFloat, TFloat lo hi => size_sub (-9218868437227405311) 9218868437227405311 lo hi
+    | FFloat, TFloat lo hi => size_sub (- InfF) InfF lo hi       (* floatTypeDefault = Float[-Inf, +Inf] *)
     | FRegexp, TRegexp _ => true
     | FUndef, TUndef => true
     | _, _ => false
@@ -247,7 +253,12 @@ Section Lattice.
     | TDefault => match v with VDefault => true | _ => false end
     | TBoolean w => match v with VBool b => match w with None => true | Some x => Bool.eqb b x end | _ => false end
     | TInteger lo hi => match v with VInt z => in_size lo hi z | _ => false end
-    | TFloat lo hi => match v with VFloat k => in_size lo hi k | _ => false end
+    | TFloat lo hi =>                                   (* floattype.go:160: NaN is inside no range, the unbounded type has it *)
+        match v with
+        | VFloat k => in_size lo hi k || float_unbounded lo hi
+        | VNaN => float_unbounded lo hi
+        | _ => false
+        end
     | TNumeric => match v with VInt _ | VFloat _ | VNaN => true | _ => false end
     | TScalar => match v with VStr _ | VInt _ | VFloat _ | VNaN | VBool _ | VRegexp _ => true | _ => false end
     | TScalarData => match v with VStr _ | VInt _ | VFloat _ | VNaN | VBool _ => true | _ => false end
